@@ -86,6 +86,8 @@ def check_native(contract: dict, limit: int | None = None):
             break
         env = dict(kw)
         old = copy.deepcopy(kw)
+        if "spec_funcs_from" in nat:
+            extra = nat["spec_funcs_from"](**kw)
         if "ghost" in nat:
             g = nat["ghost"](**copy.deepcopy(kw))
             env.update(g)
